@@ -31,7 +31,7 @@ UNIT = {
         (STACK, ['struct Builtin']),
         (STACK, ['enum Frame']),
         (STACK, ['struct Stack'], {'pub_fields': True}),
-        (SY, ['enum AndOr'], {'drop_derives': 'all'}),
+        (SY, ['enum AndOr'], {}),
         ('@raw', 'pub use AndOr::{AndThen, OrElse};\n'),
         ('@file', 'prelude.rs'),
         (STACK, ['struct EnvFrameGuard'], {'pub_fields': True, 'drop_derives': 'all'}),
@@ -128,10 +128,10 @@ UNIT = {
             ])),
         (AO, ["impl<S: Runtime + 'static> Command<S> for AndOrList", 'fn execute'], dict(ASYNC, ret='r',
             attrs=['#[verifier::exec_allows_no_decreases_clause]', '#[verifier::loop_isolation(false)]', '#[verifier::allow_complex_invariants]'],
-            ghost_before=[('execute_conditional_pipeline ( env , pipeline )', 'proof { assert(env.stack.inner@ =~= old(env).stack.inner@); }')],
+            ghost_before=[('execute_conditional_pipeline ( env ,', 'proof { assert(env.stack.inner@ =~= old(env).stack.inner@); }')],
             token_rewrites=[
-                ('self . first . execute ( & mut env2 )', 'self.first.execute(env2.env)'),
-                ('execute_conditional_pipeline ( & mut env2 , pipeline )', 'execute_conditional_pipeline(env2.env, pipeline)'),
+                # `&mut guard` where `&mut Env` is expected (DerefMut of the guard) = the reference the guard holds
+                ('& mut env2', 'env2.env', '*'),
                 ('self . rest . iter ( ) . peekable ( )', 'VerifPeek::new(&self.rest)'),
                 # the explicit drop marks the end of the guard's life; in the extracted text the guard has no destructor (its
                 # effect is part of the contract of push_frame), so its life ends with its last use
